@@ -762,26 +762,33 @@ def r_newobj_form(ctx, repo):
                                      'only when the reduction function is copyreg.__newobj__')
     f = _method(repo, 'representer.Representer', 'represent_object')
     cfg = CFG(f.node)
-    # the flag: a local assigned True under a test on `<function>.__name__ == '__newobj__'`
-    flags = set()
-    for n in walk_function(f.node):
-        if isinstance(n, ast.Assign) and isinstance(n.value, ast.Constant) and n.value.value is True and isinstance(n.targets[0], ast.Name):
-            for iff, br in A.guarding_ifs(n, f.node):
-                if br == 'body' and "'__newobj__'" in norm(iff.test):
-                    flags.add(n.targets[0].id)
-    direct = [n for n in cfg.nodes if n.kind == 'test' and "'__newobj__'" in norm(n.ast)]
-    if not flags and not direct:
-        raise AnalysisError('represent_object: __newobj__ detection not found')
-    edges = []
+    # edges on which the reduction function is known to be copyreg.__newobj__ (a comparison of <f>.__name__ with the name)
+    direct = []
     for n in cfg.nodes:
-        if n.kind == 'test':
-            if isinstance(n.ast, ast.Name) and n.ast.id in flags:
-                edges.append((n, True))
-            elif isinstance(n.ast, ast.Compare) and len(n.ast.ops) == 1 and "'__newobj__'" in norm(n.ast):
-                if isinstance(n.ast.ops[0], ast.Eq):
-                    edges.append((n, True))
-                elif isinstance(n.ast.ops[0], ast.NotEq):
-                    edges.append((n, False))
+        if n.kind == 'test' and isinstance(n.ast, ast.Compare) and len(n.ast.ops) == 1 and "'__newobj__'" in norm(n.ast):
+            if isinstance(n.ast.ops[0], (ast.Eq, ast.Is)):
+                direct.append((n, True))
+            elif isinstance(n.ast.ops[0], (ast.NotEq, ast.IsNot)):
+                direct.append((n, False))
+    if not direct:
+        raise AnalysisError('represent_object: __newobj__ detection not found')
+    # flags: locals that are assigned True only under such an edge (and False / nothing elsewhere)
+    flags = set()
+    cand = {}
+    for n in cfg.nodes:
+        if n.kind == 'stmt' and isinstance(n.ast, ast.Assign) and len(n.ast.targets) == 1 and isinstance(n.ast.targets[0], ast.Name) \
+                and isinstance(n.ast.value, ast.Constant) and isinstance(n.ast.value.value, bool):
+            cand.setdefault(n.ast.targets[0].id, []).append(n)
+    for name, nodes in cand.items():
+        trues = [n for n in nodes if n.ast.value.value is True]
+        others = [n for n in cfg.nodes if n.kind == 'stmt' and isinstance(n.ast, (ast.Assign, ast.AugAssign)) and n not in nodes
+                  and any(isinstance(x, ast.Name) and x.id == name and isinstance(x.ctx, ast.Store) for x in ast.walk(n.ast))]
+        if trues and not others and all(cfg.guarded(n, edges=direct) for n in trues):
+            flags.add(name)
+    edges = list(direct)
+    for n in cfg.nodes:
+        if n.kind == 'test' and isinstance(n.ast, ast.Name) and n.ast.id in flags:
+            edges.append((n, True))
     sites = []
     for n in cfg.nodes:
         if n.ast is None:
